@@ -2,6 +2,13 @@ package conc
 
 import (
 	"reflect"
+
+	"github.com/invopop/gobl/num"
+)
+
+var (
+	pctType = reflect.TypeOf(num.Percentage{})
+	amtType = reflect.TypeOf(num.Amount{})
 )
 
 // Scribble writes into everything mutable that is reachable from v: a poison
@@ -28,6 +35,20 @@ func scribble(v reflect.Value, seen map[uintptr]bool, depth int) {
 			return
 		}
 		seen[v.Pointer()] = true
+		// a number the document holds by pointer (percentages, surcharges, optional amounts) is
+		// overwritten through the pointer: what it points to belongs to the document
+		switch v.Type().Elem() {
+		case pctType:
+			if v.Elem().CanSet() {
+				v.Elem().Set(reflect.ValueOf(num.MakePercentage(98765, 5)))
+			}
+			return
+		case amtType:
+			if v.Elem().CanSet() {
+				v.Elem().Set(reflect.ValueOf(num.MakeAmount(-987654321, 4)))
+			}
+			return
+		}
 		scribble(v.Elem(), seen, depth+1)
 	case reflect.Interface:
 		if !v.IsNil() {
